@@ -49,6 +49,8 @@ def targeted():
     H["mask-constraint"] = [("add", 0, ["x&K0==K1"]), ("eval", 0, "x", 9, []), ("max", 0, "x", False, []), ("min", 0, "x&K0", False, [])]
     H["two-vars"] = [("add", 0, ["x+y==K0"]), ("eval", 0, "x", 9, []), ("add", 0, ["y==K1"]), ("eval", 0, "x", 9, []), ("max", 0, "x+y", False, [])]
     H["unconstrained-var"] = [("add", 0, [A]), ("eval", 0, "y", 9, []), ("min", 0, "y", False, []), ("eval", 0, "x+y", 3, [])]
+    H["pending-add-then-branch"] = [("add", 0, [A]), ("eval", 0, "x", 2, []), ("add", 0, [U]), ("branch", 0, 1), ("sat", 1, []), ("eval", 1, "x", 9, []), ("min", 1, "x", False, [])]
+    H["pending-unsat-add-then-branch"] = [("add", 0, [A]), ("sat", 0, []), ("add", 0, ["x>K2"]), ("branch", 0, 1), ("sat", 1, []), ("sat", 0, [])]
     H["const-expr"] = [("add", 0, [A]), ("eval", 0, "K1", 3, []), ("min", 0, "K1", True, []), ("solution", 0, "K1", 1, [])]
     H["bool-var"] = [("add", 0, ["b|x==K0"]), ("sat", 0, ["!b"]), ("eval", 0, "x", 9, ["!b"]), ("eval", 0, "x", 9, [])]
     for pos in range(1, 4):
